@@ -80,6 +80,8 @@ def impl_dpss(p):
 
 def model_dpss(p):
     N, NW = p["N"], p["NW"]
+    if N > 600:
+        return None   # the model's list-based lag sums are cubic in N: above 600 samples the case is oracle-only
     k = _k(N, NW, p["k"])
     raw, ts = _raw(N, NW, k)
     return ("F", proto.request("dpssglue", "F", [N], [[NW], ts] + [raw[i] for i in range(k)]))
